@@ -201,6 +201,7 @@ class Spelled:
         return None if c is None else self.text[c[0]:c[1]]
 
 
+_rr = {}
 TAILS = ['', '', '', ' ', '\n', ' -- t', '\n-- end', '\n/* e */', '\n-- end\n', ' /* e */ ']
 
 
@@ -215,7 +216,14 @@ def spell(prog, rng, gaps='blank', canonical=False, tight=False, choices=None, c
     pos = 0
     prev = None
     for lab in prog.tokens:
-        w = ok[lab][0] if canonical else rng.choice(ok[lab])
+        if canonical:
+            w = ok[lab][0]
+        elif rng.random() < 0.5:
+            w = rng.choice(ok[lab])
+        else:
+            # every spelling of a pool gets its turn (round robin per label): a rare spelling is not left to luck
+            _rr[lab] = _rr.get(lab, 0) + 1
+            w = ok[lab][_rr[lab] % len(ok[lab])]
         if canonical_kw and ' ' in w and not w.startswith(('"', '`', "'")):
             w = ' '.join(w.split())
         g = ''
